@@ -164,7 +164,7 @@ def _schedules(R: Run, S, procs, pool):
     def exhaustive(variant, kinds, workers, coarse, tag, gate=False, oracle=True):
         # wall-clock valve per configuration, far above what the unchanged protocol needs; once the protocol is
         # known to have changed (failing input or model mismatch), later configurations are only sampled
-        budget = 2 if (R.oracle_failures or hot["on"]) else R.pick(30, 240)
+        budget = 0.3 if R.oracle_failures else 1.0 if hot["on"] else R.pick(30, 240)
         n0 = len(R.lines)
         obs, truncated = S.enumerate_all(kinds, workers, coarse, procs=procs, gate_fin=gate, budget_s=budget, pool=pool)
         if truncated:
